@@ -390,7 +390,7 @@ func (ft *fnTrans) indexAddr(x *ssa.IndexAddr, h *Heap, reach string) {
 	case *types.Slice:
 		s := ft.val(x.X)
 		ft.safe("idx", reach, and("(<= 0 "+idx+")", "(< "+idx+" (s-len "+s+"))"), "slice index in range", x.Pos())
-		ft.locs[x] = &Loc{kind: lkElem, elem: u.Elem(), ref: "(s-base " + s + ")", idx: "(+ (s-off " + s + ") " + idx + ")", ty: u.Elem()}
+		ft.locs[x] = &Loc{kind: lkElem, elem: u.Elem(), ref: "(s-base " + s + ")", idx: "(sidx (s-off " + s + ") " + idx + ")", ty: u.Elem()}
 	case *types.Pointer:
 		a, ok := u.Elem().Underlying().(*types.Array)
 		if !ok {
